@@ -182,7 +182,9 @@ impl Repo {
         let mut s = String::new();
         for (i, ps) in shape.parents.iter().enumerate() {
             let msg = format!("c{i}");
-            s += &format!("commit refs/heads/zztmp\nmark :{}\ncommitter v <v@v> {} +0000\ndata {}\n{}\n", i + 1, dates[i], msg.len(), msg);
+            // the author date deliberately differs from the committer date (amended / rebased commits): "commit time" is %ct
+            let author = if dates[i] > 43_200_000 { dates[i] - 43_200_000 } else { dates[i] + 43_200_000 };
+            s += &format!("commit refs/heads/zztmp\nmark :{}\nauthor a <a@a> {} +0900\ncommitter v <v@v> {} +0000\ndata {}\n{}\n", i + 1, author, dates[i], msg.len(), msg);
             if let Some(p) = ps.first() { s += &format!("from :{}\n", p + 1); }
             for p in ps.iter().skip(1) { s += &format!("merge :{}\n", p + 1); }
             s += &format!("M 100644 inline f{i}\ndata {}\n{}\n", msg.len(), msg);
